@@ -47,7 +47,7 @@ RAW_FORMULAS = [
 def _stage(func, name, case_seed, forced, ctx, resolve, regen, stage):
     """snapshot the state, run the real set_class_constraints(), dump"""
     oid = K.ObjIds()
-    state = K.coq_fstate(func, oid)
+    state = K.coq_fstate(func, oid, declared=ctx.get("params"))
     func.tables_of_constraints = K.RecDict(func.tables_of_constraints)     # records which tables this call writes
     func.set_class_constraints()
     dump = K.py_genout(func, oid)
@@ -298,6 +298,10 @@ def run_stream(tag, tier, seed, on_case=None, classes=None, sizes=None):
         mism.append(dict(kind="model-differs", case=short(metas[i]),
                          meta=metas[i], implementation=cases[i][1],
                          model=model_output(IMPORTS, RUN, cases[i][0])[:3000]))
+    # a class whose generated constraints / LMI / tables differ from what the generated plan and formulas give for the
+    # DECLARED parameters and recorded samples is a failing input in its own right (replayable by its case seed)
+    for i in bad[:2]:
+        problems.append(dict(kind="class-generation-differs-from-model", case=short(metas[i]), meta=metas[i]))
     distinct = set()
     hist_cls, hist_ops, hist_n, hist_stage = {}, {}, {}, {}
     for m, (inp, _) in zip(metas, cases):
